@@ -19,6 +19,8 @@ type KeyCfg struct {
 	// Chain: the TLS store given through the deprecated field carries a certificate chain — the leaf followed
 	// by an issuer certificate (ChainIssuer), as a store built from "leaf + CA bundle" PEM does.
 	Chain bool `json:"chain,omitempty"`
+	// Bare: the custom store's RSA key is assembled from bare components, without precomputed CRT values.
+	Bare bool `json:"bare,omitempty"`
 }
 
 // ChainIssuer is the second certificate of chain stores (any other certificate will do: nothing verifies the chain).
@@ -107,6 +109,9 @@ func keyStoreField(k KeyCfg) dsig.X509KeyStore {
 		}
 		return st
 	case "custom":
+		if k.Bare {
+			return NewBareCustomStore(k.Field)
+		}
 		return NewCustomStore(k.Field)
 	}
 	return nil
